@@ -23,6 +23,9 @@
   much is enough (string length + 1 or + 2).
 -/
 import IgrisModel.C08.Lemmas
+import IgrisModel.C08.More
+import IgrisModel.C08.Linear
+import IgrisModel.C08.Unsigned
 namespace Igris.C08
 open Igris.Proto
 
@@ -1361,6 +1364,313 @@ theorem isascii_spec (c : Int) (hc : -2147483648 ≤ c ∧ c ≤ 2147483647) :
   · rw [if_neg h, if_neg (by omega)]
 /-- historical: `((unsigned char)(c)) <= 0x7f` called 321 (= 256 + 'A') an ASCII character -/
 theorem isasciiOrig_witness : isasciiOrig 321 = 1 := by decide
+
+
+/-! ### round 3b: strncasecmp / strcasestr in iff form -/
+
+/-- the first `n` characters of two ARRAYS agree up to case and none of them is a NUL: 0, and nothing behind
+the n-th character is read (the arrays need no terminator); `n` may be smaller than the arrays -/
+theorem strncasecmp_cut (m : Mem) (s1 s2 : Nat) (P1 P2 : List Byte) (n : Nat)
+    (h1 : Holds m s1 P1) (h2 : Holds m s2 P2) (he : P1.map lowerB = P2.map lowerB) (h0 : 0#8 ∉ P1)
+    (hn : n ≤ P1.length) : strncasecmp m s1 s2 n = some 0 := by
+  cases n with
+  | zero => rfl
+  | succ k =>
+    have hl : P1.length = P2.length := by simpa using congrArg List.length he
+    have hk1 : k < P1.length := by omega
+    have hk2 : k < P2.length := by omega
+    have sp1 : P1 = (P1.take k ++ [P1[k]]) ++ P1.drop (k + 1) := by
+      rw [List.append_assoc, List.singleton_append, List.getElem_cons_drop, List.take_append_drop]
+    have sp2 : P2 = (P2.take k ++ [P2[k]]) ++ P2.drop (k + 1) := by
+      rw [List.append_assoc, List.singleton_append, List.getElem_cons_drop, List.take_append_drop]
+    have g1 := h1; have g2 := h2
+    rw [sp1, holds_append] at g1
+    rw [sp2, holds_append] at g2
+    have hek : (P1.take k).map lowerB = (P2.take k).map lowerB := by
+      rw [List.map_take, List.map_take, he]
+    have hxk : lowerB P1[k] = lowerB P2[k] := by
+      have := congrArg (fun l => l[k]?) he
+      simpa [hk1, hk2] using this
+    have := strncasecmp_equal_prefix m s1 s2 (P1.take k) (P2.take k) P1[k] P2[k] g1.1 g2.1 hek hxk
+      (fun e => h0 (List.mem_of_mem_take e))
+    simpa [List.length_take, Nat.min_eq_left (Nat.le_of_lt hk1)] using this
+
+/-- strncasecmp is TOTAL on two C strings for EVERY n (0, smaller, equal, larger than the lengths, SIZE_MAX): no
+fault, and the result is 0 exactly when the first n characters (the terminator counts as a character, nothing
+behind it is compared) agree after the "C"-locale tolower -/
+theorem strncasecmp_total (m : Mem) (s1 s2 : Nat) (l1 l2 : List Byte) (n : Nat) (h1 : CStr m s1 l1)
+    (h2 : CStr m s2 l2) :
+    ∃ r, strncasecmp m s1 s2 n = some r ∧
+      (r = 0 ↔ ((l1 ++ [0#8]).take n).map lowerB = ((l2 ++ [0#8]).take n).map lowerB) := by
+  rcases first_diff_cstr_lower l1 l2 h1.2 h2.2 with e | ⟨p1, p2, x, y, r1, r2, e1, e2, hp, hxy, h0⟩
+  · refine ⟨0, ?_, ?_⟩
+    · by_cases hn : l1.length < n
+      · exact strncasecmp_equal m s1 s2 l1 l2 n h1 h2 e hn
+      · have a1 : Holds m s1 l1 := by have := h1.1; rw [holds_append] at this; exact this.1
+        have a2 : Holds m s2 l2 := by have := h2.1; rw [holds_append] at this; exact this.1
+        exact strncasecmp_cut m s1 s2 l1 l2 n a1 a2 e h1.2 (by omega)
+    · simp [List.map_take, e]
+  · have g1 := h1.1; have g2 := h2.1
+    rw [e1] at g1; rw [e2] at g2
+    have hl : p1.length = p2.length := by simpa using congrArg List.length hp
+    have m1 : (l1 ++ [0#8]).map lowerB = p1.map lowerB ++ lowerB x :: r1.map lowerB := by rw [e1]; simp
+    have m2 : (l2 ++ [0#8]).map lowerB = p1.map lowerB ++ lowerB y :: r2.map lowerB := by rw [e2, hp]; simp
+    rw [List.map_take, List.map_take, m1, m2]
+    by_cases hn : p1.length < n
+    · have a1 : Holds m s1 (p1 ++ [x]) := by
+        rw [show p1 ++ x :: r1 = (p1 ++ [x]) ++ r1 by simp, holds_append] at g1; exact g1.1
+      have a2 : Holds m s2 (p2 ++ [y]) := by
+        rw [show p2 ++ y :: r2 = (p2 ++ [y]) ++ r2 by simp, holds_append] at g2; exact g2.1
+      refine ⟨_, strncasecmp_first_difference m s1 s2 p1 p2 x y n a1 a2 hp h0 hxy hn, ?_⟩
+      have hnz : ucInt (lowerB x) - ucInt (lowerB y) ≠ 0 := fun h0' => hxy ((ucInt_sub_sign _ _).2.mp h0')
+      constructor
+      · intro h; exact absurd h hnz
+      · intro ht
+        exact absurd ht (take_append_cons_ne _ _ _ hxy (by simpa using hn))
+    · have a1 : Holds m s1 p1 := by rw [holds_append] at g1; exact g1.1
+      have a2 : Holds m s2 p2 := by rw [holds_append] at g2; exact g2.1
+      refine ⟨0, strncasecmp_cut m s1 s2 p1 p2 n a1 a2 hp h0 (by omega), ?_⟩
+      simp [take_append_of_le' (p1.map lowerB) _ (show n ≤ (p1.map lowerB).length by simp; omega)]
+
+/-- strcasestr with the first matching position known -/
+theorem strcasestr_first_match (m : Mem) (haystack needle : Nat) (nd l : List Byte) (fuel k : Nat)
+    (hH : CStr m haystack l) (hN : CStr m needle nd) (hf : l.length < fuel)
+    (hk : k ≤ l.length) (hm : nd.map lowerB <+: (l.drop k).map lowerB)
+    (hfirst : ∀ i, i < k → ¬ nd.map lowerB <+: (l.drop i).map lowerB) :
+    strcasestr m haystack needle fuel = some (some (haystack + k)) := by
+  cases nd with
+  | nil =>
+    have : k = 0 := by
+      cases k with
+      | zero => rfl
+      | succ j => exact absurd (by simp) (hfirst 0 (by omega))
+    subst this
+    simpa using strcasestr_empty_needle m haystack needle fuel (cstr_nil.mp hN)
+  | cons b nd' =>
+    obtain ⟨t, ht⟩ := hm
+    let mid := (l.drop k).take (b :: nd').length
+    let r := (l.drop k).drop (b :: nd').length
+    have el : l = l.take k ++ mid ++ r := by
+      rw [List.append_assoc, List.take_append_drop, List.take_append_drop]
+    have hmid : mid.map lowerB = (b :: nd').map lowerB := by
+      show ((l.drop k).take (b :: nd').length).map lowerB = _
+      rw [List.map_take, ← ht]
+      simp
+    have hpl : (l.take k).length = k := by simp [Nat.min_eq_left hk]
+    have := strcasestr_found m haystack needle (b :: nd') (l.take k) mid r fuel (by rw [← el]; exact hH) hN
+      (by simp) hmid (by rw [← el, hpl]; exact hfirst) (by rw [← el]; exact hf)
+    rw [hpl] at this; exact this
+
+/-- strcasestr is TOTAL on two C strings -/
+theorem strcasestr_total (m : Mem) (haystack needle : Nat) (nd l : List Byte) (fuel : Nat)
+    (hH : CStr m haystack l) (hN : CStr m needle nd) (hf : l.length < fuel) :
+    ∃ r, strcasestr m haystack needle fuel = some r ∧
+      (r = none ↔ ∀ i, i ≤ l.length → ¬ nd.map lowerB <+: (l.drop i).map lowerB) ∧
+      (∀ k, r = some (haystack + k) → k ≤ l.length →
+        (nd.map lowerB <+: (l.drop k).map lowerB ∧ ∀ i, i < k → ¬ nd.map lowerB <+: (l.drop i).map lowerB)) := by
+  by_cases hex : ∃ k, k ≤ l.length ∧ nd.map lowerB <+: (l.drop k).map lowerB
+  · obtain ⟨k0, hk0⟩ := hex
+    obtain ⟨k, ⟨hk, hm⟩, hmin⟩ := exists_least (fun k => k ≤ l.length ∧ nd.map lowerB <+: (l.drop k).map lowerB) k0 hk0
+    have hfirst : ∀ i, i < k → ¬ nd.map lowerB <+: (l.drop i).map lowerB := fun i hi hp => hmin i hi ⟨by omega, hp⟩
+    refine ⟨_, strcasestr_first_match m haystack needle nd l fuel k hH hN hf hk hm hfirst, ?_, ?_⟩
+    · constructor
+      · intro h; simp at h
+      · intro h; exact absurd hm (h k hk)
+    · intro k' hk' _
+      have : k' = k := by simp at hk'; omega
+      subst this; exact ⟨hm, hfirst⟩
+  · have hno : ∀ i, i ≤ l.length → ¬ nd.map lowerB <+: (l.drop i).map lowerB := fun i hi hp => hex ⟨i, hi, hp⟩
+    have hne : nd ≠ [] := fun e => hno 0 (by omega) (by rw [e]; simp)
+    refine ⟨none, strcasestr_absent m haystack needle nd l fuel hH hN hne (fun i hi => hno i (by omega)) hf, ?_, ?_⟩
+    · exact ⟨fun _ => hno, fun _ => rfl⟩
+    · intro k hk; simp at hk
+
+
+/-! ### round 3b: ACCESS MONOTONICITY (audit item 3).  `MemLe m m'` (More.lean): `m'` extends `m` - every cell
+mapped in `m` is mapped in `m'` with the same content; `m'` may map any number of further cells with any
+content.  For EVERY function of the model, for ALL arguments (also those outside the hypotheses of the
+specification theorems): if the call succeeds on `m`, it succeeds on `m'` with the SAME result, and for the
+writers the resulting memories are related again.  Together with the specification theorems (success when
+only the allowed ranges are mapped) this is the "reads and writes no byte outside" clause without a reading
+convention: the behaviour on any memory that contains the allowed ranges IS the behaviour on the memory
+that contains nothing else; the additional cells are neither needed nor looked at (a fault is the only way
+the model can observe a cell, and it does not occur). -/
+
+theorem memchr_access_monotone {m m' : Mem} (h : MemLe m m') (s : Nat) (c : Int) (n : Nat) (r : Option Nat)
+    (e : memchr m s c n = some r) : memchr m' s c n = some r := (memchr_le h s c n).eq e
+theorem memrchr_access_monotone {m m' : Mem} (h : MemLe m m') (s : Nat) (c : Int) (n : Nat) (r : Option Nat)
+    (e : memrchr m s c n = some r) : memrchr m' s c n = some r := (memrchr_le h s c n).eq e
+theorem memcmp_access_monotone {m m' : Mem} (h : MemLe m m') (d s n : Nat) (r : Int)
+    (e : memcmp m d s n = some r) : memcmp m' d s n = some r := (memcmp_le h d s n).eq e
+theorem strlen_access_monotone {m m' : Mem} (h : MemLe m m') (s fuel : Nat) (r : Nat)
+    (e : strlen m s fuel = some r) : strlen m' s fuel = some r := (strlen_le h s fuel).eq e
+theorem strnlen_access_monotone {m m' : Mem} (h : MemLe m m') (s n : Nat) (r : Nat)
+    (e : strnlen m s n = some r) : strnlen m' s n = some r := (strnlen_le h s n).eq e
+theorem strcmp_access_monotone {m m' : Mem} (h : MemLe m m') (a b fuel : Nat) (r : Int)
+    (e : strcmp m a b fuel = some r) : strcmp m' a b fuel = some r := (strcmpLoop_le h id fuel a b).eq e
+theorem strcasecmp_access_monotone {m m' : Mem} (h : MemLe m m') (a b fuel : Nat) (r : Int)
+    (e : strcasecmp m a b fuel = some r) : strcasecmp m' a b fuel = some r := (strcmpLoop_le h tolowerI fuel a b).eq e
+theorem strncmp_access_monotone {m m' : Mem} (h : MemLe m m') (a b n : Nat) (r : Int)
+    (e : strncmp m a b n = some r) : strncmp m' a b n = some r := (strncmpF_le h id a b n).eq e
+theorem strncasecmp_access_monotone {m m' : Mem} (h : MemLe m m') (a b n : Nat) (r : Int)
+    (e : strncasecmp m a b n = some r) : strncasecmp m' a b n = some r := (strncmpF_le h tolowerI a b n).eq e
+theorem strchrnul_access_monotone {m m' : Mem} (h : MemLe m m') (s : Nat) (ch : Int) (fuel : Nat) (r : Nat)
+    (e : strchrnul m s ch fuel = some r) : strchrnul m' s ch fuel = some r := (strchrnulLoop_le h (toChar ch) fuel s).eq e
+theorem strchr_access_monotone {m m' : Mem} (h : MemLe m m') (s : Nat) (ch : Int) (fuel : Nat) (r : Option Nat)
+    (e : strchr m s ch fuel = some r) : strchr m' s ch fuel = some r := (strchr_le h s ch fuel).eq e
+theorem strrchr_access_monotone {m m' : Mem} (h : MemLe m m') (s : Nat) (ch : Int) (fuel : Nat) (r : Option Nat)
+    (e : strrchr m s ch fuel = some r) : strrchr m' s ch fuel = some r := (strrchr_le h s ch fuel).eq e
+theorem strstr_access_monotone {m m' : Mem} (h : MemLe m m') (hs nd fuel : Nat) (r : Option Nat)
+    (e : strstr m hs nd fuel = some r) : strstr m' hs nd fuel = some r := (strstrF_le h id hs nd fuel).eq e
+theorem strcasestr_access_monotone {m m' : Mem} (h : MemLe m m') (hs nd fuel : Nat) (r : Option Nat)
+    (e : strcasestr m hs nd fuel = some r) : strcasestr m' hs nd fuel = some r := (strstrF_le h tolowerI hs nd fuel).eq e
+theorem strspn_access_monotone {m m' : Mem} (h : MemLe m m') (s a fuel : Nat) (r : Nat)
+    (e : strspn m s a fuel = some r) : strspn m' s a fuel = some r := (strspn_le h s a fuel).eq e
+theorem strcspn_access_monotone {m m' : Mem} (h : MemLe m m') (s a fuel : Nat) (r : Nat)
+    (e : strcspn m s a fuel = some r) : strcspn m' s a fuel = some r := (strcspn_le h s a fuel).eq e
+theorem strpbrk_access_monotone {m m' : Mem} (h : MemLe m m') (s a fuel : Nat) (r : Option Nat)
+    (e : strpbrk m s a fuel = some r) : strpbrk m' s a fuel = some r := (strpbrk_le h s a fuel).eq e
+
+theorem memcpy_access_monotone {m m' : Mem} (h : MemLe m m') (d s n : Nat) (m1 : Mem) (r : Nat)
+    (e : memcpy m d s n = some (m1, r)) : ∃ m1', memcpy m' d s n = some (m1', r) ∧ MemLe m1 m1' := (memcpy_le h d s n).mv e
+theorem memmove_access_monotone {m m' : Mem} (h : MemLe m m') (d s n : Nat) (m1 : Mem) (r : Nat)
+    (e : memmove m d s n = some (m1, r)) : ∃ m1', memmove m' d s n = some (m1', r) ∧ MemLe m1 m1' := (memmove_le h d s n).mv e
+theorem memset_access_monotone {m m' : Mem} (h : MemLe m m') (d : Nat) (c : Int) (n : Nat) (m1 : Mem) (r : Nat)
+    (e : memset m d c n = some (m1, r)) : ∃ m1', memset m' d c n = some (m1', r) ∧ MemLe m1 m1' := (memset_le h d c n).mv e
+theorem strcpy_access_monotone {m m' : Mem} (h : MemLe m m') (d s fuel : Nat) (m1 : Mem) (r : Nat)
+    (e : strcpy m d s fuel = some (m1, r)) : ∃ m1', strcpy m' d s fuel = some (m1', r) ∧ MemLe m1 m1' := (strcpy_le h d s fuel).mv e
+theorem strncpy_access_monotone {m m' : Mem} (h : MemLe m m') (d s n : Nat) (m1 : Mem) (r : Nat)
+    (e : strncpy m d s n = some (m1, r)) : ∃ m1', strncpy m' d s n = some (m1', r) ∧ MemLe m1 m1' := (strncpy_le h d s n).mv e
+theorem strlcpy_access_monotone {m m' : Mem} (h : MemLe m m') (d s size fuel : Nat) (m1 : Mem) (r : Nat)
+    (e : strlcpy m d s size fuel = some (m1, r)) : ∃ m1', strlcpy m' d s size fuel = some (m1', r) ∧ MemLe m1 m1' := (strlcpy_le h d s size fuel).mv e
+theorem strcat_access_monotone {m m' : Mem} (h : MemLe m m') (d s fuel : Nat) (m1 : Mem) (r : Nat)
+    (e : strcat m d s fuel = some (m1, r)) : ∃ m1', strcat m' d s fuel = some (m1', r) ∧ MemLe m1 m1' := (strcat_le h d s fuel).mv e
+theorem strncat_access_monotone {m m' : Mem} (h : MemLe m m') (d s n fuel : Nat) (m1 : Mem) (r : Nat)
+    (e : strncat m d s n fuel = some (m1, r)) : ∃ m1', strncat m' d s n fuel = some (m1', r) ∧ MemLe m1 m1' := (strncat_le h d s n fuel).mv e
+theorem strlwr_access_monotone {m m' : Mem} (h : MemLe m m') (s fuel : Nat) (m1 : Mem) (r : Nat)
+    (e : strlwr m s fuel = some (m1, r)) : ∃ m1', strlwr m' s fuel = some (m1', r) ∧ MemLe m1 m1' := (strlwr_le h s fuel).mv e
+theorem strupr_access_monotone {m m' : Mem} (h : MemLe m m') (s fuel : Nat) (m1 : Mem) (r : Nat)
+    (e : strupr m s fuel = some (m1, r)) : ∃ m1', strupr m' s fuel = some (m1', r) ∧ MemLe m1 m1' := (strupr_le h s fuel).mv e
+theorem strtok_r_access_monotone {m m' : Mem} (h : MemLe m m') (str : Option Nat) (delim : Nat) (save : Option Nat) (fuel : Nat) (m1 : Mem) (r : Option Nat × Option Nat)
+    (e : strtok_r m str delim save fuel = some (m1, r)) : ∃ m1', strtok_r m' str delim save fuel = some (m1', r) ∧ MemLe m1 m1' := (strtok_r_le h str delim save fuel).mv e
+theorem strtok_access_monotone {m m' : Mem} (h : MemLe m m') (str : Option Nat) (delim : Nat) (save : Option Nat) (fuel : Nat) (m1 : Mem) (r : Option Nat × Option Nat)
+    (e : strtok m str delim save fuel = some (m1, r)) : ∃ m1', strtok m' str delim save fuel = some (m1', r) ∧ MemLe m1 m1' := (strtok_r_le h str delim save fuel).mv e
+theorem strdup_access_monotone {malloc : Alloc} (ha : AllocMono malloc) {m m' : Mem} (h : MemLe m m') (s fuel : Nat) (m1 : Mem) (r : Option Nat)
+    (e : strdup malloc m s fuel = some (m1, r)) : ∃ m1', strdup malloc m' s fuel = some (m1', r) ∧ MemLe m1 m1' := (strdup_le ha h s fuel).mv e
+theorem strndup_access_monotone {malloc : Alloc} (ha : AllocMono malloc) {m m' : Mem} (h : MemLe m m') (s size : Nat) (m1 : Mem) (r : Option Nat)
+    (e : strndup malloc m s size = some (m1, r)) : ∃ m1', strndup malloc m' s size = some (m1', r) ∧ MemLe m1 m1' := (strndup_le ha h s size).mv e
+
+/-- a whole strtok history on a larger memory: the same tokens, the same final save pointer -/
+theorem strtokCalls_access_monotone {m m' : Mem} (h : MemLe m m') (fuel : Nat) (ds : List Nat) (str save : Option Nat)
+    (m1 : Mem) (r : Option Nat × List (Option Nat))
+    (e : strtokCalls m fuel ds str save = some (m1, r)) :
+    ∃ m1', strtokCalls m' fuel ds str save = some (m1', r) ∧ MemLe m1 m1' := (strtokCalls_le fuel ds h str save).mv e
+
+/-- the driver's allocator (a fresh block at a fixed address) satisfies `AllocMono` -/
+example (base : Nat) : AllocMono (fun m n => some ((fun a => if base ≤ a ∧ a < base + n then some 0xA5#8 else m a), base)) := by
+  intro m m' n h
+  refine ⟨fun e => by simp at e, fun m1 p e => ?_⟩
+  simp only [Option.some.injEq, Prod.mk.injEq] at e
+  obtain ⟨e1, e2⟩ := e
+  subst e1; subst e2
+  refine ⟨_, rfl, ?_⟩
+  intro a v hv
+  by_cases c : base ≤ a ∧ a < base + n
+  · simpa [c] using hv
+  · simp only [if_neg c] at hv ⊢; exact h a v hv
+/-- and so does the allocator that always fails -/
+example : AllocMono (fun _ _ => none) := fun _ _ _ _ => ⟨fun _ => rfl, fun _ _ e => by simp at e⟩
+
+/-- `MemLe` is not vacuous: "abc\0" alone vs. the same string with a second object next to it; strlen, which
+succeeds on the small memory, gives the same value on the large one (and the converse fails: the large memory
+lets strlen run on the second object, the small one faults there) -/
+example : MemLe (ofBufs [(8, [97#8, 98#8, 99#8, 0#8])]) (ofBufs [(8, [97#8, 98#8, 99#8, 0#8]), (12, [1#8, 0#8])]) := by
+  intro a v h
+  have : a = 8 ∨ a = 9 ∨ a = 10 ∨ a = 11 := by
+    by_cases c : 8 ≤ a ∧ a < 8 + 4
+    · omega
+    · simp [ofBufs, c] at h
+  rcases this with rfl | rfl | rfl | rfl
+  · rw [show (ofBufs [(8, [97#8, 98#8, 99#8, 0#8]), (12, [1#8, 0#8])]) 8 = (ofBufs [(8, [97#8, 98#8, 99#8, 0#8])]) 8 by decide]; exact h
+  · rw [show (ofBufs [(8, [97#8, 98#8, 99#8, 0#8]), (12, [1#8, 0#8])]) 9 = (ofBufs [(8, [97#8, 98#8, 99#8, 0#8])]) 9 by decide]; exact h
+  · rw [show (ofBufs [(8, [97#8, 98#8, 99#8, 0#8]), (12, [1#8, 0#8])]) 10 = (ofBufs [(8, [97#8, 98#8, 99#8, 0#8])]) 10 by decide]; exact h
+  · rw [show (ofBufs [(8, [97#8, 98#8, 99#8, 0#8]), (12, [1#8, 0#8])]) 11 = (ofBufs [(8, [97#8, 98#8, 99#8, 0#8])]) 11 by decide]; exact h
+example : strlen (ofBufs [(8, [97#8, 98#8, 99#8, 0#8]), (12, [1#8, 0#8])]) 8 10 = some 3 ∧
+    strlen (ofBufs [(8, [97#8, 98#8, 99#8, 0#8]), (12, [1#8, 0#8])]) 12 10 = some 1 ∧
+    strlen (ofBufs [(8, [97#8, 98#8, 99#8, 0#8])]) 12 10 = none := by decide
+/-- `strncasecmp_total`: "aB" vs "Ac": equal up to case on the first character only; `strcasestr_total`: "xAb" / "aB" -/
+example : strncasecmp (ofBufs [(8, [97#8, 66#8, 0#8]), (32, [65#8, 99#8, 0#8])]) 8 32 1 = some 0 ∧
+    strncasecmp (ofBufs [(8, [97#8, 66#8, 0#8]), (32, [65#8, 99#8, 0#8])]) 8 32 2 = some (-1) ∧
+    strcasestr (ofBufs [(8, [120#8, 65#8, 98#8, 0#8]), (32, [97#8, 66#8, 0#8])]) 8 32 10 = some (some 9) := by decide
+
+/-! ### round 3b: the LINEAR-TIME FORM of the model (Fast.lean) IS the model.  `AMem` is an array of cells,
+`absA c` the partial memory it stands for.  The ten functions that write O(n) bytes are defined a second time
+over `AMem` - the text of Model.lean with `rd`/`wr` replaced by the O(1) `rdA`/`wrA` - and these theorems say that
+the array version faults exactly when the literal model faults on `absA c`, returns the same value, and ends in
+an array that stands for the literal model's resulting memory.  The driver runs the array versions on the
+64 KiB / 300 KiB inputs of the writers: by these theorems that is a run of the literal model (closure memory:
+O(n^2), out of reach), not of a second specification. -/
+
+theorem memcpy_linear_form (c : AMem) (d s n : Nat) :
+    (memcpyA c d s n).map absP = memcpy (absA c) d s n := (memcpy_absA c d s n).symm
+theorem memmove_linear_form (c : AMem) (d s n : Nat) :
+    (memmoveA c d s n).map absP = memmove (absA c) d s n := (memmove_absA c d s n).symm
+theorem memset_linear_form (c : AMem) (d : Nat) (x : Int) (n : Nat) :
+    (memsetA c d x n).map absP = memset (absA c) d x n := (memset_absA c d x n).symm
+theorem strcpy_linear_form (c : AMem) (d s fuel : Nat) :
+    (strcpyA c d s fuel).map absP = strcpy (absA c) d s fuel := (strcpy_absA c d s fuel).symm
+theorem strncpy_linear_form (c : AMem) (d s n : Nat) :
+    (strncpyA c d s n).map absP = strncpy (absA c) d s n := (strncpy_absA c d s n).symm
+theorem strlcpy_linear_form (c : AMem) (d s size fuel : Nat) :
+    (strlcpyA c d s size fuel).map absP = strlcpy (absA c) d s size fuel := (strlcpy_absA c d s size fuel).symm
+theorem strcat_linear_form (c : AMem) (d s fuel : Nat) :
+    (strcatA c d s fuel).map absP = strcat (absA c) d s fuel := (strcat_absA c d s fuel).symm
+theorem strncat_linear_form (c : AMem) (d s n fuel : Nat) :
+    (strncatA c d s n fuel).map absP = strncat (absA c) d s n fuel := (strncat_absA c d s n fuel).symm
+theorem strdup_linear_form {malloc : Alloc} {mallocA : AllocA} (hm : AllocSim malloc mallocA) (c : AMem) (s fuel : Nat) :
+    (strdupA mallocA c s fuel).map absP = strdup malloc (absA c) s fuel := (strdup_absA hm c s fuel).symm
+theorem strndup_linear_form {malloc : Alloc} {mallocA : AllocA} (hm : AllocSim malloc mallocA) (c : AMem) (s size : Nat) :
+    (strndupA mallocA c s size).map absP = strndup malloc (absA c) s size := (strndup_absA hm c s size).symm
+/-- the allocator of the driver (a fresh block filled with 0xA5 at a fixed address, or NULL) in its two forms -/
+theorem driver_malloc_linear_form (fail : Bool) (base : Nat) : AllocSim (mallocFn fail base) (mallocArr fail base) :=
+  mallocArr_sim fail base
+/-- the two primitives: reading a cell, and writing one (fault on an unmapped cell included) -/
+theorem rd_wr_linear_form (c : AMem) (a : Nat) (v : Byte) :
+    rdA c a = rd (absA c) a ∧ (wrA c a v).map absA = wr (absA c) a v := ⟨rfl, (wr_absA c a v).symm⟩
+/-- `absA` is onto the finitely mapped memories the driver builds: an array and the memory it stands for, and a
+memmove with overlap run in both forms -/
+example : (memmoveA #[none, some 1#8, some 2#8, some 3#8, some 4#8, none] 2 1 3).map (fun r => (r.1, r.2)) =
+    some (#[none, some 1#8, some 1#8, some 2#8, some 3#8, none], 2) := by decide
+example : (memmove (absA #[none, some 1#8, some 2#8, some 3#8, some 4#8, none]) 2 1 3).map (fun r => (readOut r.1 1 4, r.2)) =
+    some (some [1#8, 1#8, 2#8, 3#8], 2) := by decide
+example : memmoveA #[none, some 1#8, some 2#8, some 3#8, some 4#8, none] 3 1 3 = none := by decide
+
+/-! ### round 3b: NO RESULT DEPENDS ON THE SIGNEDNESS OF PLAIN `char` (audit item 1).  Unsigned.lean holds the
+definitions of Model.lean that convert a plain `char` to `int`, with the zero-extending conversion of a target
+whose `char` is unsigned (ARM, PowerPC) instead of the sign-extending one.  They are the same functions - for
+all memories, arguments and fuels.  (All other functions of the library convert through `unsigned char`
+explicitly or compare bytes only, so their transcription does not mention the conversion at all.) -/
+
+theorem strstr_char_sign_free : @strstrU = @strstr := by
+  funext m h n fuel; exact strstrFU_eq id (Or.inl rfl) m h n fuel
+theorem strcasestr_char_sign_free : @strcasestrU = @strcasestr := by
+  funext m h n fuel; exact strstrFU_eq tolowerI (Or.inr rfl) m h n fuel
+theorem strcspn_char_sign_free : @strcspnU = @strcspn := by
+  funext m s r fuel; exact strcspnLoopU_eq m r fuel fuel s 0
+theorem strtok_r_char_sign_free : @strtok_rU = @strtok_r := by
+  funext m str delim save fuel
+  simp only [strtok_rU, strtok_r, tokSkipU_eq, strcspn_char_sign_free]
+  rfl
+theorem strlwr_char_sign_free : @strlwrU = @strlwr := by
+  funext m s fuel; simp only [strlwrU, strlwr, caseLoopU_eq 65 90 (by decide) (by decide)]
+theorem strupr_char_sign_free : @struprU = @strupr := by
+  funext m s fuel; simp only [struprU, strupr, caseLoopU_eq 97 122 (by decide) (by decide)]
+/-- strchr, and through it strrchr / strcspn / strtok, looks only at `(char)ch`: any two `int`s with the same low
+byte - in particular the sign-extended and the zero-extended value of a character - give the same call -/
+theorem strchr_depends_on_char_only (m : Mem) (s : Nat) (a b : Int) (fuel : Nat) (h : toChar a = toChar b) :
+    strchr m s a fuel = strchr m s b fuel := strchr_char_only m s a b fuel h
+/-- the two conversions really differ (on every byte >= 0x80), so the theorems above are not vacuous -/
+example : scInt 0xE1#8 = -31 ∧ ucInt 0xE1#8 = 225 ∧ toChar (-31) = toChar 225 := by decide
 
 /-- the class table is not degenerate: 26 + 26 letters, 10 digits, 6 white-space characters, 95 printing ones -/
 example : ((List.range 128).filter fun c => inClass (c : Nat) CL_U).length = 26 ∧
